@@ -788,6 +788,39 @@ fn peer_broadcast_payloads() -> Result<String, String> {
             check(&format!("broadcast_notify_beve({path:?}, {val})"), path, &beve::to_vec(&val).unwrap(), 1, res.len())?;
             n += 2;
         }
+        // a body whose encoding fails part-way (a field serialized, then an error) must leave nothing behind: no delivery for the
+        // failed broadcast, and the next broadcast carries exactly its own body (a multi-step history: ok, failed, ok)
+        {
+            struct HalfThenFail;
+            impl serde::Serialize for HalfThenFail {
+                fn serialize<S: serde::Serializer>(&self, s: S) -> Result<S::Ok, S::Error> {
+                    use serde::ser::SerializeMap;
+                    let mut m = s.serialize_map(Some(2))?;
+                    m.serialize_entry("ok", &1)?;
+                    Err(serde::ser::Error::custom("second field cannot be encoded"))
+                }
+            }
+            for round in 0..2 {
+                if reg.broadcast_notify_json(path, &HalfThenFail).is_ok() {
+                    return Err(format!("broadcast_notify_json({path:?}) of a body that fails to encode reported success"));
+                }
+                if !hits.lock().unwrap().is_empty() {
+                    return Err(format!("broadcast_notify_json({path:?}) of a body that fails to encode still notified peers"));
+                }
+                let val = json!({"n": 2 + round});
+                let res = reg.broadcast_notify_json(path, &val).map_err(|e| e.to_string())?;
+                check(&format!("broadcast_notify_json({path:?}, {val}) after a broadcast whose body failed to encode"), path, &serde_json::to_vec(&val).unwrap(), 2, res.len())?;
+                if reg.broadcast_notify_beve(path, &HalfThenFail).is_ok() {
+                    return Err(format!("broadcast_notify_beve({path:?}) of a body that fails to encode reported success"));
+                }
+                if !hits.lock().unwrap().is_empty() {
+                    return Err(format!("broadcast_notify_beve({path:?}) of a body that fails to encode still notified peers"));
+                }
+                let res = reg.broadcast_notify_beve(path, &val).map_err(|e| e.to_string())?;
+                check(&format!("broadcast_notify_beve({path:?}, {val}) after a broadcast whose body failed to encode"), path, &beve::to_vec(&val).unwrap(), 1, res.len())?;
+                n += 4;
+            }
+        }
         for text in ["", "x", "h\u{e9}llo \u{1F600}"] {
             let res = reg.broadcast_notify_utf8(path, text);
             check(&format!("broadcast_notify_utf8({path:?}, {text:?})"), path, text.as_bytes(), 3, res.len())?;
